@@ -316,6 +316,17 @@ pub enum DecodeError {
 
 /// decode the object headers of a fragment body; `data_present` = objects carry data (false for READ requests)
 pub fn decode_objects(body: &[u8], data_present: bool) -> Result<(Vec<HeaderInfo>, Vec<Obj>), DecodeError> {
+    decode_objects_with(body, data_present, false)
+}
+
+/// event groups that the library's (direction-agnostic) parser treats as data-less when they come with a count qualifier (0x07/0x08)
+pub fn count_only_event_group(group: u8) -> bool {
+    matches!(group, 2 | 4 | 11 | 13 | 22 | 23 | 32 | 33 | 42 | 43 | 111)
+}
+
+/// as `decode_objects`; with `lenient_counts`, count-qualified headers of event groups carry no data even in a response
+/// (the reading of the library's parser, which is shared between requests and responses)
+pub fn decode_objects_with(body: &[u8], data_present: bool, lenient_counts: bool) -> Result<(Vec<HeaderInfo>, Vec<Obj>), DecodeError> {
     let mut headers = Vec::new();
     let mut objects = Vec::new();
     let mut pos = 0usize;
@@ -375,7 +386,8 @@ pub fn decode_objects(body: &[u8], data_present: bool) -> Result<(Vec<HeaderInfo
             start,
         });
         let size = obj_size(group, var).ok_or(DecodeError::UnknownObject(group, var))?;
-        if data_present && qual != 0x06 {
+        let dataless = lenient_counts && matches!(qual, 0x07 | 0x08) && count_only_event_group(group);
+        if data_present && qual != 0x06 && !dataless {
             match size {
                 ObjSize::Empty => {}
                 ObjSize::Bits(nbits) => {
@@ -439,6 +451,11 @@ pub fn decode_objects(body: &[u8], data_present: bool) -> Result<(Vec<HeaderInfo
         header_no += 1;
     }
     Ok((headers, objects))
+}
+
+/// could a parser that reads count-qualified event headers as data-less take this response for well-formed?
+pub fn response_parses_leniently(data: &[u8]) -> bool {
+    data.len() >= 4 && data[1] >= 129 && decode_objects_with(&data[4..], true, true).is_ok()
 }
 
 /// decode a complete fragment (request or response)
